@@ -8,6 +8,7 @@ escape-token model `Writer.Str`.  Not proved (kept visible, tied by the round-tr
 layer of escapes (printing `{:x}` / `hex_number`).
 -/
 import RsassModel.Writer.CssString
+import RsassModel.Writer.Ident
 namespace C09
 open Writer.Str
 
@@ -117,5 +118,46 @@ theorem r1_reader_witness :
     showQ SQuirks.r1 [97, 34, 98, 39] = [.ch 97, .bsq, .ch 98, .ch 39] ∧
     readRaw SQuirks.r1 (showQ SQuirks.r1 [97, 34, 98, 39]) = none ∧
     readRaw SQuirks.spec (showQ SQuirks.spec [97, 34, 98, 39]) ≠ none := by decide
+
+/-! ## Identifiers: escapes survive the round trip
+
+`ident_escape_roundtrip`: what a reader writes for an escaped code point of an identifier is
+read back (by the plain-css reader) as exactly the same text — for every code point and both
+positions, with the threshold `0xa1` the two readers use.  Both readers share one threshold:
+were the plain-css copy to use another one (`ident_threshold_witness`: `0x80`), an escape such as
+`\85 ` written by the scss reader would come back as the raw C1 control character. -/
+
+theorem ident_escape_roundtrip_first (c : Nat) :
+    Writer.Ident.reread Writer.Ident.thrCode true (Writer.Ident.normFirst Writer.Ident.thrCode c)
+      = some (Writer.Ident.normFirst Writer.Ident.thrCode c) := by
+  by_cases h : c ≥ 161
+  · have h1 : Writer.Ident.normFirst Writer.Ident.thrCode c = .raw c := by
+      simp [Writer.Ident.normFirst, Writer.Ident.thrCode, h]
+    have h2 : c ≥ 128 := by omega
+    rw [h1]; simp [Writer.Ident.reread, h2]
+  · have key : ∀ c, c < 161 →
+        Writer.Ident.reread Writer.Ident.thrCode true (Writer.Ident.normFirst Writer.Ident.thrCode c)
+          = some (Writer.Ident.normFirst Writer.Ident.thrCode c) := by decide +kernel
+    exact key c (by omega)
+
+theorem ident_escape_roundtrip_rest (c : Nat) :
+    Writer.Ident.reread Writer.Ident.thrCode false (Writer.Ident.normRest Writer.Ident.thrCode c)
+      = some (Writer.Ident.normRest Writer.Ident.thrCode c) := by
+  by_cases h : c ≥ 161
+  · have h1 : Writer.Ident.normRest Writer.Ident.thrCode c = .raw c := by
+      simp [Writer.Ident.normRest, Writer.Ident.thrCode, h]
+    have h2 : c ≥ 128 := by omega
+    rw [h1]; simp [Writer.Ident.reread, h2]
+  · have key : ∀ c, c < 161 →
+        Writer.Ident.reread Writer.Ident.thrCode false (Writer.Ident.normRest Writer.Ident.thrCode c)
+          = some (Writer.Ident.normRest Writer.Ident.thrCode c) := by decide +kernel
+    exact key c (by omega)
+
+/-- the two readers must share the threshold: with `0x80` in the plain-css copy only, the text
+`\85 ` (what the scss reader writes for U+0085) is read back as the raw character -/
+theorem ident_threshold_witness :
+    Writer.Ident.normRest Writer.Ident.thrCode 0x85 = .hex 0x85 ∧
+    Writer.Ident.reread 0x80 false (Writer.Ident.normRest Writer.Ident.thrCode 0x85) = some (.raw 0x85) := by
+  decide
 
 end C09
